@@ -24,7 +24,7 @@ type kase struct {
 }
 
 type arch struct {
-	Comment string     `json:"comment"`
+	Comment string      `json:"comment"`
 	Files   [][2]string `json:"files"`
 }
 
